@@ -360,6 +360,13 @@ def flatten_val(ex, st, v, tid, terms, sig, groups):
         else:
             sig.append(('dyn', v.t))
             flatten_val(ex, st, v.v, v.t, terms, sig, groups)
+    elif c == 'ptr':
+        # a pointer argument stands for its pointee (nil is a distinct shape)
+        if v is None:
+            sig.append('nilptr')
+        else:
+            sig.append('ptr')
+            flatten_val(ex, st, ex.load(st, v), t['elem'], terms, sig, groups)
     else:
         raise Unsupported('UF arg of type ' + t['s'])
 
@@ -740,7 +747,24 @@ def m_big_bytes(ex, st, args, ins, fn):
         b = x.to_bytes((x.bit_length() + 7) // 8, 'big')
         c = ex.new_cell(st, tuple(b))
         return Slice(Ptr(c, ()), 0, len(b), len(b))
-    raise Unsupported('Bytes of symbolic big.Int')
+    # symbolic: case split on the byte length L (0..33), then fresh bytes tied to the value by a
+    # linear integer equation (|x| = sum b_i * 256^(L-1-i), leading byte non-zero)
+    ax = z3.If(x >= 0, x, -x)
+    maxl = int(ex.opts.get('big_bytes_max', 33))
+    conds = [ax == 0] + [z3.And(ax >= 256 ** (L - 1), ax < 256 ** L) for L in range(1, maxl + 1)] + [ax >= 256 ** maxl]
+    L = ex.choose(st, conds)
+    if L > maxl:
+        raise Unsupported('Bytes of a symbolic big.Int longer than %d bytes' % maxl)
+    key = ('bigbytes', x.get_id())
+    elems = st.ghost.get(key)
+    if elems is None or len(elems) != L:
+        elems = tuple(z3.BitVec(ex.fresh_name('bigb'), 8) for _ in range(L))
+        if L:
+            total = z3.Sum([z3.BV2Int(e, False) * (256 ** (L - 1 - i)) for i, e in enumerate(elems)])
+            ex.add_constraint(st, total == ax)
+        st.ghost[key] = elems
+    c = ex.new_cell(st, elems)
+    return Slice(Ptr(c, ()), 0, L, L)
 
 
 @model('(*math/big.Int).SetString')
